@@ -22,29 +22,54 @@ theorem C07_shape (s : List Char) (n : Nat) (hn : 1 ≤ n) (hs : IsAcgt s) :
     ∃ c, setVt s n = .ok c ∧ c.length = n ∧ IsAcgt c ∧
       c.head? = some (nucChar ((valuesOf s).sum % 4)) ∧
       kmerIdx c.tail = (ascentPositions (valuesOf s)).sum % 4 ^ (n - 1) := by
-  sorry
+  refine ⟨_, setVt_ok n hs, ?_, ?_, ?_, ?_⟩
+  · rw [List.length_cons, numberToDnaInt_length _ _ (Nat.mod_lt _ (Nat.pow_pos (by omega)))]
+    omega
+  · exact isAcgt_cons.2 ⟨nucIdx_nucChar_isSome _, isAcgt_numberToDnaInt _ _⟩
+  · rfl
+  · rw [List.tail_cons, kmerIdx_numberToDnaInt]
+    rfl
 
 /-- a strand with a foreign character has no check: `ValueError`. -/
 theorem C07_foreign (s : List Char) (n : Nat) (hs : ¬ IsAcgt s) : setVt s n = .error .valueError := by
-  sorry
+  exact setVt_err n hs
 
 /-- any single substitution changes the first symbol of the check. -/
 theorem C07_subst (s : List Char) (n p : Nat) (x : Char) (hn : 1 ≤ n) (hs : IsAcgt s)
     (hp : p < s.length) (hx : (nucIdx x).isSome = true) (hne : s[p]? ≠ some x) :
     ∃ c c', setVt s n = .ok c ∧ setVt (s.set p x) n = .ok c' ∧ c.head? ≠ c'.head? := by
-  sorry
+  have _ := hn
+  exact setVt_head_ne n hs (isAcgt_set hs p hx) (sum_vals_set_mod_ne s p x hs hp hx hne)
 
 /-- any single insertion of C, G or T changes the first symbol of the check. -/
 theorem C07_insert (s : List Char) (n p : Nat) (x : Char) (hn : 1 ≤ n) (hs : IsAcgt s)
     (hp : p ≤ s.length) (hx : x = 'C' ∨ x = 'G' ∨ x = 'T') :
     ∃ c c', setVt s n = .ok c ∧ setVt (s.take p ++ [x] ++ s.drop p) n = .ok c' ∧ c.head? ≠ c'.head? := by
-  sorry
+  have _ := hn
+  have _ := hp
+  have hx' : (nucIdx x).isSome = true ∧ 1 ≤ (nucIdx x).getD 0 := by
+    rcases hx with h | h | h <;> subst h <;> decide
+  refine setVt_head_ne n hs (isAcgt_insert hs p hx'.1) ?_
+  rw [sum_vals_insert]
+  have := nucIdx_getD_lt x
+  omega
 
 /-- any single deletion of C, G or T changes the first symbol of the check. -/
 theorem C07_delete (s : List Char) (n p : Nat) (hn : 1 ≤ n) (hs : IsAcgt s) (hp : p < s.length)
     (hx : s[p]? = some 'C' ∨ s[p]? = some 'G' ∨ s[p]? = some 'T') :
     ∃ c c', setVt s n = .ok c ∧ setVt (s.eraseIdx p) n = .ok c' ∧ c.head? ≠ c'.head? := by
-  sorry
+  have _ := hn
+  have _ := hp
+  have hy : ∃ y, s[p]? = some y ∧ 1 ≤ (nucIdx y).getD 0 := by
+    rcases hx with h | h | h
+    · exact ⟨_, h, by decide⟩
+    · exact ⟨_, h, by decide⟩
+    · exact ⟨_, h, by decide⟩
+  obtain ⟨y, hy, hy1⟩ := hy
+  refine setVt_head_ne n hs (isAcgt_eraseIdx hs p) ?_
+  rw [sum_vals_eraseIdx s p y hy]
+  have := nucIdx_getD_lt y
+  omega
 
 /-- consequently decoding any strand whose check differs from the supplied one raises
 `ValueError`, whatever the graph, table, mode and requested length. -/
@@ -52,7 +77,9 @@ theorem C07_decode_rejects (a : Acc) (tbl : Option Tbl) (v : Int) (s s' : List C
     (fast : Bool) (c c' : List Char)
     (hc : setVt s n = .ok c) (hc' : setVt s' n = .ok c') (hn : 1 ≤ n) (hne : c.head? ≠ c'.head?) :
     decode a tbl v s' L fast (some c) = .error .valueError := by
-  sorry
+  unfold decode
+  rw [vtMatches_false (setVt_length hn hc) hc' hne]
+  rfl
 
 example : setVt "TCTCTCT".toList 5 = .ok "TAAGC".toList := by decide +kernel
 example : setVt [] 3 = .ok "AAA".toList := by decide +kernel
